@@ -138,7 +138,10 @@ namespace ratio
                     return res;
             }
             else
+            { // a 'void' method: its body is executed for its effects..
+                m.invoke(ctx, exprs);
                 return scp.get_core().new_bool(true);
+            }
         }
 
         CORE_EXPORT id_expression::id_expression(const std::vector<riddle::id_token> &is) : riddle::ast::id_expression(is) {}
